@@ -139,6 +139,7 @@ func busy() {
 
 // Case is one communication clause of a rewritten select.
 type Case interface {
+	isRecv() bool
 	try() bool
 	rcase() reflect.SelectCase
 	done(recv reflect.Value, ok bool)
@@ -151,6 +152,8 @@ type RCase[T any] struct {
 }
 
 func RecvCase[T any](ch <-chan T) *RCase[T] { return &RCase[T]{ch: ch} }
+
+func (c *RCase[T]) isRecv() bool { return true }
 
 func (c *RCase[T]) try() bool {
 	if c.ch == nil {
@@ -180,6 +183,8 @@ type SCase[T any] struct {
 }
 
 func SendCase[T any](ch chan<- T, v T) *SCase[T] { return &SCase[T]{ch: ch, v: v} }
+
+func (c *SCase[T]) isRecv() bool { return false }
 
 func (c *SCase[T]) try() bool {
 	if c.ch == nil {
@@ -221,7 +226,15 @@ func (permOp) OpName() string { return "perm" }
 // default) the goroutine blocks in a real select over all cases. It returns
 // the index of the chosen case, or -1 for default.
 func Select(hasDefault bool, cases ...Case) int {
-	busy()
+	recvOnly := !hasDefault
+	for _, c := range cases {
+		if !c.isRecv() {
+			recvOnly = false
+		}
+	}
+	if recvOnly {
+		busy() // a consumer waiting for work; a select that sends, or only polls, is not one
+	}
 	k, g, quit := PreReal(RealNone)
 	if k == nil {
 		return selectNative(nil, nil, hasDefault, cases)
@@ -504,7 +517,7 @@ type pickOp struct {
 }
 
 func (pickOp) Ready() bool     { return true }
-func (o *pickOp) Do()          { o.out = o.k.Draw(o.n) }
+func (o *pickOp) Do()          { o.out = o.k.DrawAux(o.n) }
 func (pickOp) OpName() string { return "pick" }
 
 // Pick returns a kernel-drawn value in [0,n) (recorded on the tape); 0 outside
